@@ -126,6 +126,49 @@ class Acc(object):
                     exhaustive_done=self.exhaustive_done)
 
 
+class CaseSpin(BaseException):
+    pass
+
+
+MEM_LIMIT = 5 << 30      # address space of one shard; a runaway allocation inside the library ends in MemoryError, not in the OOM killer
+MEM_ALARM = 2 << 30      # resident size no case comes near (the largest messages are tens of MiB)
+
+
+def _maxrss():
+    try:
+        import resource
+        return resource.getrusage(resource.RUSAGE_SELF).ru_maxrss * 1024
+    except ImportError:
+        return 0
+
+
+class _SpinWatch(object):
+    """raises CaseSpin in the main thread when the process has used `limit` seconds of processor time (user mode, all
+    threads) inside one case.  Processor time, not wall-clock time: a loaded machine does not trip it."""
+
+    def __init__(self, limit):
+        self.limit = float(limit)
+
+    def _fire(self, *_a):
+        raise CaseSpin('a single case used more than %.0f s of processor time' % self.limit)
+
+    def __enter__(self):
+        import signal
+        try:
+            self.old = signal.signal(signal.SIGVTALRM, self._fire)
+            signal.setitimer(signal.ITIMER_VIRTUAL, self.limit)
+        except (ValueError, OSError, AttributeError):
+            self.old = None
+        return self
+
+    def __exit__(self, *exc):
+        import signal
+        if self.old is not None:
+            signal.setitimer(signal.ITIMER_VIRTUAL, 0)
+            signal.signal(signal.SIGVTALRM, self.old)
+        return False
+
+
 # ---------------------------------------------------------------- shard
 def shard_main(pid, tier, seed, i, n):
     t0 = time.monotonic()
@@ -151,6 +194,12 @@ def shard_main(pid, tier, seed, i, n):
             mod.selftest(acc)
         idx = -1
         truncated = False
+        mem_alarmed = False
+        try:
+            import resource
+            resource.setrlimit(resource.RLIMIT_AS, (MEM_LIMIT, resource.getrlimit(resource.RLIMIT_AS)[1]))
+        except (ImportError, ValueError, OSError):
+            pass
         for idx, case in enumerate(mod.cases(tier, seed, i, n)):
             if spent() > budget:
                 truncated = True
@@ -166,7 +215,24 @@ def shard_main(pid, tier, seed, i, n):
                     acc.count2('case_env', k_)
             acc.evaluations += 1
             try:
-                mod.run_case(case, acc)
+                with _SpinWatch(getattr(mod, 'CASE_CPU_LIMIT_S', 60.0)):
+                    mod.run_case(case, acc)
+                if _maxrss() > MEM_ALARM and not mem_alarmed:
+                    # (the library turns the MemoryError into an ordinary Disconnected - without the address-space limit
+                    # this process runs under, the application would have been killed)
+                    mem_alarmed = True
+                    acc.violation('would-exhaust-memory:one-case-grew-the-process-beyond-%dMiB' % (MEM_ALARM >> 20),
+                                  '%s: memory grew without bound inside the library (largest input of any case: tens of MiB)' % pid.upper(),
+                                  case, dict(maxrss=_maxrss()))
+            except MemoryError:
+                if not mem_alarmed:
+                    mem_alarmed = True
+                    acc.violation('would-exhaust-memory:one-case-grew-the-process-beyond-%dMiB' % (MEM_ALARM >> 20),
+                                  '%s: MemoryError under the %d MiB address-space limit' % (pid.upper(), MEM_LIMIT >> 20), case, dict(maxrss=_maxrss()))
+            except CaseSpin as e:
+                # one case has used a minute of processor time (they take milliseconds): the library is in a loop that
+                # no socket operation and no event interrupts - the call the application made (next(), send) does not return
+                acc.violation('would-hang:busy-loop-without-io', '%s: %s' % (pid.upper(), e), case, dict(limit=str(e)))
             except env.SelfDeadlock as e:
                 # a driver other than harness.drive met it: the call it was making would never have returned
                 acc.violation('would-hang:self-deadlock-on-lock', '%s: a thread blocks for ever on a lock it already holds' % pid.upper(),
@@ -289,7 +355,11 @@ def parent_main(pid, tier, seed):
             merged.inconclusive.append('shard %d produced no result (rc=%s): %s' % (
                 i, p.returncode, se.decode('utf-8', 'replace')[-800:]))
             continue
-        r = json.loads(so[k + len(MARK):])
+        try:
+            r = json.loads(so[k + len(MARK):])
+        except ValueError as e:
+            merged.inconclusive.append('shard %d: result not readable (%s; rc=%s)' % (i, e, p.returncode))
+            continue
         merged.evaluations += r['evaluations']
         merged.counters['cases'] = merged.counters.get('cases', 0) + r.get('cases', 0)
         merged.classes.update(r['classes'])
